@@ -21,20 +21,21 @@ type profile struct {
 	Clients                                                   int // max clients
 	TwoClusters                                               bool
 	TinySegments                                              bool
+	C06Every                                                  int // evaluate the durability oracle at one in so many commit advances (0: never)
 	Templates                                                 []string
 }
 
 var profiles = map[string]profile{
 	"elect": {Name: "elect", Partition: 120, Heal: 120, Crash: 60, Restart: 150, Stall: 80, ConnReset: 60, ConnStall: 40,
-		Transfer: 40, Member: 10, MinVoters: 2, MaxVoters: 5, Clients: 2},
+		Transfer: 40, Member: 10, MinVoters: 2, MaxVoters: 5, Clients: 2, C06Every: 8},
 	"repl": {Name: "repl", Partition: 80, Heal: 120, Crash: 40, Restart: 150, Stall: 50, ConnReset: 60, ConnStall: 60,
-		Transfer: 20, Member: 10, Snapshot: 20, MinVoters: 2, MaxVoters: 5, MaxNonvoters: 1, Clients: 6},
+		Transfer: 20, Member: 10, Snapshot: 20, MinVoters: 2, MaxVoters: 5, MaxNonvoters: 1, Clients: 6, C06Every: 16},
 	"member": {Name: "member", Partition: 50, Heal: 120, Crash: 30, Restart: 150, Stall: 30, ConnReset: 30, ConnStall: 20,
-		Transfer: 40, Member: 250, Snapshot: 20, MinVoters: 1, MaxVoters: 4, MaxNonvoters: 2, Clients: 3},
+		Transfer: 40, Member: 250, Snapshot: 20, MinVoters: 1, MaxVoters: 4, MaxNonvoters: 2, Clients: 3, C06Every: 3},
 	"snap": {Name: "snap", Partition: 60, Heal: 120, Crash: 40, Restart: 150, Stall: 80, ConnReset: 30, ConnStall: 40,
 		Transfer: 10, Member: 30, Snapshot: 250, WipeNonvoter: 30, MinVoters: 1, MaxVoters: 4, MaxNonvoters: 2, Clients: 5, TinySegments: true},
 	"crash": {Name: "crash", Partition: 40, Heal: 120, Crash: 200, Restart: 250, Stall: 20, ConnReset: 20, ConnStall: 20,
-		Transfer: 10, Member: 30, Snapshot: 80, MinVoters: 1, MaxVoters: 4, MaxNonvoters: 1, Clients: 4, TinySegments: true},
+		Transfer: 10, Member: 30, Snapshot: 80, MinVoters: 1, MaxVoters: 4, MaxNonvoters: 1, Clients: 4, TinySegments: true, C06Every: 4},
 	"transfer": {Name: "transfer", Partition: 50, Heal: 120, Crash: 30, Restart: 150, Stall: 50, ConnReset: 40, ConnStall: 60,
 		Transfer: 300, Member: 60, Snapshot: 10, MinVoters: 2, MaxVoters: 5, MaxNonvoters: 1, Clients: 3},
 	"mix": {Name: "mix", Partition: 60, Heal: 120, Crash: 50, Restart: 150, Stall: 40, ConnReset: 40, ConnStall: 30,
